@@ -36,7 +36,7 @@ Phases == {x - 5000 : x \in PhaseCode}
 
 NoAct == [op |-> "none", p |-> <<0,0,0,0>>, h |-> <<>>]
 
-UnaryOps  == {"tomatrix","neg","scale","div","transpose","real","imag","evolve","rotate","tob1","tob0","selfcheck"}
+UnaryOps  == {"tomatrix","neg","scale","div","transpose","real","imag","evolve","rotate","tob1","tob0","wrot","selfcheck"}
 BinaryOps == {"add","sub","icom","acom","trace","eq","evoliso","rotiso"}
 FactoryOps == {"projector","identity","generator","posproj","negproj","mixing"}
 
@@ -96,6 +96,13 @@ AngPh(q,dd) == [x \in 1..NPairs(dd) |-> IF q = 0 THEN 0 ELSE ((q*5 + x*3 + q*x) 
 ToB1(M,dd,q) == LET U == MixU(dd,AngTh(q,dd),AngPh(q,dd)) IN MNorm(MMul(Dagger(U,dd), MMul(M,U,dd), dd), dd)
 ToB0(M,dd,q) == LET U == MixU(dd,AngTh(q,dd),AngPh(q,dd)) IN MNorm(MMul(U, MMul(M,Dagger(U,dd),dd), dd), dd)
 
+\* WeightedRotation: V-basis to B0, weight by the diagonal Y on both sides, then to the W-basis:
+\*   U_W^dagger ( Y ( U_V A U_V^dagger ) Y ) U_W        (the nested (anti)commutators of the code reduce to Y X Y)
+WRot(M,dd,qv,qw,ys) == LET Y == MDiagInt(SpecH(ys,dd),dd)
+                           X == ToB0(M,dd,qv)
+                           UW == MixU(dd,AngTh(qw,dd),AngPh(qw,dd))
+                       IN MNorm(MMul(Dagger(UW,dd), MMul(MMul(Y, MMul(X,Y,dd), dd), UW, dd), dd), dd)
+
 RealPart(M,dd) == [r \in 1..dd |-> [c \in 1..dd |-> SDiv(SAdd(M[r][c],SConj(M[r][c])),2)]]
 ImagRest(M,dd) == [r \in 1..dd |-> [c \in 1..dd |-> SDiv(SSub(M[r][c],SConj(M[r][c])),2)]]
 
@@ -145,6 +152,9 @@ Unary == /\ stage = 1
                   Done("tob1",<<q,0,0,0>>,AngTh(q,d) \o AngPh(q,d),ToB1(A,d,q),S0)
             \/ "tob0" \in Ops /\ \E q \in 0..(NSpec-1) :
                   Done("tob0",<<q,0,0,0>>,AngTh(q,d) \o AngPh(q,d),ToB0(A,d,q),S0)
+            \/ "wrot" \in Ops /\ \E qv \in 0..(NSpec-1) : \E ys \in {1,3,5} :
+                  LET qw == (qv * 3 + 1) % NSpec IN
+                  Done("wrot",<<qv,qw,ys,0>>,AngTh(qv,d) \o AngPh(qv,d) \o AngTh(qw,d) \o AngPh(qw,d) \o SpecH(ys,d),WRot(A,d,qv,qw,ys),S0)
 
 Binary == /\ stage = 2
           /\ \/ "add" \in Ops /\ Done("add",<<0,0,0,0>>,<<>>,MAdd(A,B,d),S0)
@@ -244,6 +254,7 @@ LawRotate ==
     /\ MEq(RotateM(R,d,i,j,-kt,kd), A, d)
     /\ SEq(TrProd(R, RotateM(Partner,d,i,j,kt,kd), d), TrProd(A,Partner,d))
 LawMixing ==
+  /\ (stage = 3 /\ act.op = "wrot") => MIsHerm(R,d)
   /\ (stage = 3 /\ act.op = "mixing") => MEq(MMul(Dagger(R,d),R,d), MId(d), d) /\ MEq(MMul(R,Dagger(R,d),d), MId(d), d)
   /\ (stage = 3 /\ act.op \in {"tob1","tob0"}) =>
     LET q == act.p[1]  U == MixU(d,AngTh(q,d),AngPh(q,d)) IN
